@@ -832,8 +832,13 @@ theorem jw_step_simple (sp : Spec) (rk : String → Nat) (hsp : SpecOK sp rk) (w
               intro j hj _; exact ⟨hj, fun hw => by simp [isWakeFor] at hw⟩
             · split
               · intro hwf'
-                refine jw_simple sp w _ (.rpcStartTask t false) (jw_grow_eq _ _ rfl) hE hrm ?_ (h hwf')
-                intro j hj _; exact ⟨hj, fun hw => by simp [isWakeFor] at hw⟩
+                rw [(checkAffected_tasks sp _ t).2] at hwf'
+                refine jw_simple sp w _ (.rpcStartTask t false)
+                  (jw_grow_eq _ _ (checkAffected_tasks sp _ t).1) hE
+                  (fun x hx hne => checkAffected_pending_sub sp _ t x (hrm x hx hne)) ?_ (h hwf')
+                intro j hj _
+                rw [(checkAffected_tasks sp _ t).1] at hj
+                exact ⟨hj, fun hw => by simp [isWakeFor] at hw⟩
               · split
                 · intro hwf'
                   refine jw_simple sp w _ (.rpcStartTask t false) (jw_grow_eq _ _ rfl) hE hrm ?_ (h hwf')
